@@ -87,6 +87,8 @@ class World:
 
     def behaviour(self, typename, fielddef, path, args):
         """-> ('error', message, extensions) | ('value', python value)"""
+        if fielddef.get("absent"):
+            return ("value", None)   # nobody resolves this field: the parent value simply does not have it
         t = GS.parse_t(fielddef["type"])
         k = _h(self.salt, canon(path))
         if self.p_err and k % self.p_err == 0:
@@ -110,7 +112,14 @@ class World:
                 if self.p_null_item and ki % self.p_null_item == 0:
                     out.append(None)
                 else:
-                    out.append(self.value(t[1], path + [i], ki))
+                    v = self.value(t[1], path + [i], ki)
+                    if isinstance(v, dict) and "__typename__" in v:
+                        # lists of an abstract type hold a *mix* of runtime types: the possible types in rotation (one
+                        # selection set, collected for several concrete types within one response)
+                        poss = self.spec.possible(GS.named(t[1]))
+                        if len(poss) > 1:
+                            v = {"__typename__": poss[((ka >> 9) + i) % len(poss)]}
+                    out.append(v)
             return out
         return self.leaf(t[1], ka)
 
@@ -413,7 +422,8 @@ def execute(spec, text, payload, world, operation_name=None, root_value=None, op
         except GS.Reject as e:
             res.errors.append((tuple(path), "coercion", str(e), None, locs))
             return None
-        res.calls.append((tuple(path), tn, fd["name"], canon(args)))
+        if not fd.get("absent"):   # nobody resolves an absent field: no resolver invocation to speak of
+            res.calls.append((tuple(path), tn, fd["name"], canon(args)))
         if tuple(path) in world.boom_paths:
             raise Boom(tuple(path))
         if resolve_leaf_parent is not None:
